@@ -199,6 +199,61 @@ let () =
         !good && int_of_n rz.rcode = 0 && List.length rz.rin = 2 && not rz.rfail in
     Printf.sprintf "%s %d" (hex_of_bytes out) (if ok then 1 else 0))
 
+(* LZMA symbol trace: decode a raw LZMA1 stream (end marker) with the specification decoder one symbol at a time,
+   classify every symbol from the bits the decoder read and the state change, then serialise the symbols again with
+   the model encoder (enc_run / enc_eopm / encode).  "ok" = the model encoder reproduces the input bytes exactly. *)
+let () =
+  reg "lzmasyms" (fun a -> match a with
+    | [lc; lp; pb; hx] ->
+      let pr = { lc = n_of_int (int_of_string lc); lp = n_of_int (int_of_string lp); pb = n_of_int (int_of_string pb) } in
+      let inp = bytes_of_hex hx in
+      let dict = n_of_hex "ffffffff" in
+      (match lz_start inp PM.empty N0 N0 N0 N0 N0 hist_empty None with
+       | Inr _ -> "startfail"
+       | Inl z0 ->
+         let classify z z' =
+           let st = z.zstate in
+           let pos_state = N.modulo z.zhist.hlen (N.pow (n_of_int 2) pr.pb) in
+           let ((m, r), ps) = rc_bit z.zrc z.zps (p_IS_MATCH st pos_state) in
+           if not m then SLit (List.hd z'.zout)
+           else
+             let ((isrep, r), ps) = rc_bit r ps (p_IS_REP st) in
+             let n = N.sub z'.zoutn z.zoutn in
+             if not isrep then SMatch (z'.rep0, n)
+             else
+               let ((b0, r), ps) = rc_bit r ps (p_IS_REP0 st) in
+               if not b0 then
+                 (let ((lg, _), _) = rc_bit r ps (p_IS_REP0_LONG st pos_state) in
+                  if not lg then SShortRep else SLongRep (N0, n))
+               else
+                 let ((b1, r), ps) = rc_bit r ps (p_IS_REP1 st) in
+                 if not b1 then SLongRep (n_of_int 1, n)
+                 else let ((b2, _), _) = rc_bit r ps (p_IS_REP2 st) in
+                   SLongRep ((if b2 then n_of_int 3 else n_of_int 2), n) in
+         let syms = ref [] and z = ref z0 and fin = ref "" and guard = ref 0 in
+         while !fin = "" do
+           let z' = symbol pr dict true !z in
+           (match z'.zstatus with
+            | Running -> syms := classify !z z' :: !syms; z := z'
+            | Finished -> z := z'; fin := "fin"
+            | _ -> z := z'; fin := "err");
+           incr guard; if !guard > 10000000 then fin := "loop"
+         done;
+         if !fin <> "fin" then "decodefail " ^ !fin
+         else begin
+           let syms = List.rev !syms in
+           let er = enc_run pr (z_init None) syms in
+           let zf = snd er in
+           let ds = fst er @ fst (enc_eopm pr zf zf.zps) in
+           let out = encode ds in
+           let used = int_of_n (!z).zrc.rused in
+           let nl = ref 0 and nm = ref 0 and ns = ref 0 and nr = ref 0 in
+           List.iter (function SLit _ -> incr nl | SMatch _ -> incr nm | SShortRep -> incr ns | SLongRep _ -> incr nr) syms;
+           Printf.sprintf "%s %d %d lit=%d,match=%d,shortrep=%d,longrep=%d %s"
+             (if out = inp then "ok" else "diff") used (List.length out) !nl !nm !ns !nr (hex_of_bytes (List.rev (!z).zout))
+         end)
+    | _ -> "ERR")
+
 let () =
   reg "outqhist" (fun toks ->
     (* the driver refuses G beyond 128 live buffers and W/F on missing indices exactly like the model's upd on short lists *)
